@@ -10,9 +10,9 @@ import vlib, mpitrace
 
 ADVS = list(range(8))
 M = 0xffffffff
-TSIZE = [1, 2, 2, 4, 4, 8, 8, 8]
+TSIZE = [1, 2, 2, 4, 4, 8, 8, 8, 1, 8]          # 8 = sc_MPI_BYTE, 9 = sc_MPI_2INT: only as send / receive signature of sc_shmem_allgather
 TSIGNED = [True, True, False, True, False, True, False, True]
-TNAME = ["char", "short", "ushort", "int", "unsigned", "long", "ulong", "longlong"]
+TNAME = ["char", "short", "ushort", "int", "unsigned", "long", "ulong", "longlong", "byte", "2int"]
 FNAME = ["basic", "prescan", "window", "window_prescan"]
 
 
@@ -79,6 +79,17 @@ def node_of(P, ppn, noncontig, r):
     return r // ppn
 
 
+def sig_pair(rng, d, count, mixed=True):
+    """(stype, rtype) for sc_shmem_allgather: how the count * size (d) bytes of one rank are DESCRIBED on the send and on the receive
+    side; -1 = as dtype d itself.  Any two types whose size divides the byte length (counts = length / size)."""
+    if not mixed:
+        return (-1, -1)
+    L = count * TSIZE[d]
+    ok = [t for t in range(10) if L % TSIZE[t] == 0]
+    st, rt = rng.choice(ok), rng.choice(ok)
+    return (-1 if st == d else st, -1 if rt == d else rt)
+
+
 def gen_cases(ctx, ntypes):
     rng = ctx.rng
     cases = []
@@ -94,30 +105,31 @@ def gen_cases(ctx, ntypes):
                         adv = rng.choice(ADVS)
                         pa = ppn if how == "explicit" else 0
                         # sync: the callers' own barrier before each write round, or none (the protocol alone keeps the rounds apart)
-                        cases.append((P, rng.randrange(1 << 30), adv, pa, ppn, 0, flavour, d, count, rng.randrange(1 << 16), rng.randrange(2), 0))
+                        cases.append((P, rng.randrange(1 << 30), adv, pa, ppn, 0, flavour, d, count, rng.randrange(1 << 16), rng.randrange(2), 0)
+                                     + sig_pair(rng, d, count, rng.randrange(2) == 1))
                 # the same grid inherited by an MPI_Comm_dup'ed communicator (attribute copy callback): everything runs on the duplicate
                 how = rng.choice(["explicit", "split_type"])
                 cases.append((P, rng.randrange(1 << 30), rng.choice(ADVS), ppn if how == "explicit" else 0, ppn, 0, flavour, rng.randrange(8),
-                              rng.choice([1, 1, 2, 3]), rng.randrange(1 << 16), rng.randrange(2), 1))
+                              rng.choice([1, 1, 2, 3]), rng.randrange(1 << 16), rng.randrange(2), 1, -1, -1))
     # not attached at all: every flavour must fall back to the basic behaviour
     for _ in range(6 if ctx.quick else 30):
         P = rng.choice([1, 2, 3, 5, 8])
-        cases.append((P, rng.randrange(1 << 30), rng.choice(ADVS), -1, 0, 0, rng.randrange(ntypes), rng.randrange(8), rng.choice([1, 2]), rng.randrange(1 << 16), rng.randrange(2), rng.randrange(2)))
+        cases.append((P, rng.randrange(1 << 30), rng.choice(ADVS), -1, 0, 0, rng.randrange(ntypes), rng.randrange(8), rng.choice([1, 2]), rng.randrange(1 << 16), rng.randrange(2), rng.randrange(2), -1, -1))
     # node sizes that are not all equal (ppn does not divide P): sc_mpi_comm_attach_node_comms must not attach
     for _ in range(6 if ctx.quick else 30):
         P = rng.choice([3, 5, 7, 8, 10])
         ppn = rng.choice([d for d in range(2, P) if P % d != 0] or [2])
-        cases.append((P, rng.randrange(1 << 30), rng.choice(ADVS), 0, ppn, 0, rng.randrange(ntypes), rng.randrange(8), 1, rng.randrange(1 << 16), rng.randrange(2), rng.randrange(2)))
+        cases.append((P, rng.randrange(1 << 30), rng.choice(ADVS), 0, ppn, 0, rng.randrange(ntypes), rng.randrange(8), 1, rng.randrange(1 << 16), rng.randrange(2), rng.randrange(2), -1, -1))
     # the dedicated probe of finding F-C14a: round-robin node partition
     for (P, ppn) in ([(8, 4), (9, 3), (4, 2)] if ctx.quick else [(8, 4), (9, 3), (4, 2), (6, 2), (6, 3), (12, 4), (16, 4)]):
         for flavour in range(ntypes):
-            cases.append((P, rng.randrange(1 << 30), rng.choice(ADVS), 0, ppn, 1, flavour, 3, 1, rng.randrange(1 << 16), 1, 0))
+            cases.append((P, rng.randrange(1 << 30), rng.choice(ADVS), 0, ppn, 1, flavour, 3, 1, rng.randrange(1 << 16), 1, 0, -1, -1))
     # duplicates on proper grids (more than one node AND more than one rank per node), where a transposed or otherwise
     # wrong inherited grid changes the arrays of the window flavours
     for (P, ppn) in ([(4, 2), (6, 2), (6, 3), (8, 2), (12, 3)] if ctx.quick else [(4, 2), (6, 2), (6, 3), (8, 2), (8, 4), (9, 3), (10, 5), (12, 3), (12, 4), (16, 4), (18, 6)]):
         for flavour in range(ntypes):
             cases.append((P, rng.randrange(1 << 30), rng.choice(ADVS), rng.choice([0, ppn]), ppn, 0, flavour, rng.randrange(8), rng.choice([1, 2]),
-                          rng.randrange(1 << 16), 1, 1))
+                          rng.randrange(1 << 16), 1, 1) + sig_pair(rng, 3, 2, False))
     # write rounds that follow each other directly (no barrier between a reader's last read and the next
     # sc_shmem_write_start): the protocol itself must keep the rounds apart (theorem C14_protocol_rounds_do_not_overlap;
     # finding F-C14b, repaired: the barrier inside sc_shmem_write_start_window)
@@ -126,7 +138,21 @@ def gen_cases(ctx, ntypes):
         ppn = rng.choice([d for d in range(1, P + 1) if P % d == 0])
         pa = rng.choice([0, ppn])
         cases.append((P, rng.randrange(1 << 30), rng.choice(ADVS + [1, 6, 7]), pa, ppn, 0, rng.randrange(ntypes), rng.randrange(8), rng.choice([1, 2]),
-                      rng.randrange(1 << 16), 0, 0))
+                      rng.randrange(1 << 16), 0, 0, -1, -1))
+    # sc_shmem_allgather whose send and receive signatures describe the same bytes differently, on SEVERAL nodes (ppn < P; with one node
+    # the internode exchange is a self-copy) and on every flavour: k x INT -> k/2 x 2INT and back, k x LONG -> 2k x INT and back, BYTE
+    # counts against typed counts, narrow against wide types; on the original and on a duplicated communicator
+    PAIRS = [(3, 3, 9), (3, 9, 3), (5, 5, 3), (3, 3, 5), (4, 8, 4), (6, 6, 8), (1, 1, 7), (7, 2, 7), (0, 0, 3), (3, 9, 8), (5, 8, 9), (2, 3, 1)]
+    grids = [(2, 1), (4, 2), (4, 1), (6, 2), (6, 3), (8, 2), (8, 4), (9, 3), (12, 4)] if ctx.quick else \
+            [(2, 1), (3, 1), (4, 2), (4, 1), (6, 2), (6, 3), (8, 2), (8, 4), (9, 3), (10, 5), (12, 3), (12, 4), (15, 5), (16, 4), (18, 6), (24, 8)]
+    for (P, ppn) in grids:
+        for flavour in range(ntypes):
+            for (d, st, rt) in (rng.sample(PAIRS, 3) if ctx.quick else PAIRS):
+                # the byte length of one rank's contribution must be a multiple of both type sizes
+                m = max(TSIZE[st], TSIZE[rt]) // TSIZE[d] if max(TSIZE[st], TSIZE[rt]) > TSIZE[d] else 1
+                count = m * rng.choice([1, 1, 2, 3])
+                cases.append((P, rng.randrange(1 << 30), rng.choice(ADVS), rng.choice([0, ppn]), ppn, 0, flavour, d, count, rng.randrange(1 << 16),
+                              rng.randrange(2), 1 if rng.randrange(4) == 0 else 0, -1 if st == d else st, -1 if rt == d else rt))
     return cases
 
 
@@ -169,10 +195,12 @@ def pattern(dseed, rnd, node, n):
 
 
 def judge(ctx, c, r, bad, ntypes):
-    P, seed, adv, pa, ppn, nonc, flavour, d, count, dseed, sync, dup = c
+    P, seed, adv, pa, ppn, nonc, flavour, d, count, dseed, sync, dup, st, rt = c
     ts = TSIZE[d]
-    key = "%s%s-P%d-ppn%d-%s-%s-n%d%s" % ("roundrobin-" if nonc else "", FNAME[flavour], P, ppn, "explicit" if pa > 0 else ("none" if pa < 0 else "splittype"), TNAME[d], count,
-                                       "-dup" if dup else "")
+    st, rt = (d if st < 0 else st), (d if rt < 0 else rt)
+    sigtxt = "" if (st, rt) == (d, d) else "-send%dx%s-recv%dx%s" % (count * ts // TSIZE[st], TNAME[st], count * ts // TSIZE[rt], TNAME[rt])
+    key = "%s%s-P%d-ppn%d-%s-%s-n%d%s%s" % ("roundrobin-" if nonc else "", FNAME[flavour], P, ppn, "explicit" if pa > 0 else ("none" if pa < 0 else "splittype"), TNAME[d], count,
+                                         "-dup" if dup else "", sigtxt)
     on = "the MPI_Comm_dup'ed communicator, " if dup else ""
     rep = dict(case=list(c), rc=r.rc, report=r.report[:2000])
 
@@ -181,7 +209,10 @@ def judge(ctx, c, r, bad, ntypes):
         ctx.violation(kind + ":" + key, text, rep)
 
     if r.rc != 0:
-        viol("schedule", "run did not end normally (simmpi code %s): %s" % (r.rc, r.report[:300]))
+        errs = [l for l in r.report.split("\n") if l.startswith("[ERROR]")]
+        viol("schedule", "run did not end normally (simmpi code %s)%s: %s%s" % (
+            r.rc, (" with sc_shmem_allgather (send %d x %s, receive %d x %s)" % (count * ts // TSIZE[st], TNAME[st], count * ts // TSIZE[rt], TNAME[rt])) if sigtxt else "",
+            (errs[0][:200] + " | ") if errs else "", r.report[:200]))
         return None
     info = parse_out(r.outs[0]) if r.outs and r.outs[0].startswith("info") else {}
     outs = [parse_out(l) for l in r.outs[1:]]
@@ -232,8 +263,11 @@ def judge(ctx, c, r, bad, ntypes):
             viol("type", "rank %d: sc_shmem_get_type returns %s after set_type (%d)" % (q, o["type"], flavour))
         ag, pre, cp = decode(d, hb(o["ag"])), decode(d, hb(o["pre"])), decode(d, hb(o["cp"]))
         if ag != exp_ag:
+            # the oracle is on BYTES (decoded as items of the data's type for the message): whatever the two signatures, the array must
+            # hold the send buffers of ranks 0 .. P-1 one after the other
             rep["rank"], rep["got"], rep["expected"] = q, ag, exp_ag
-            viol("allgather", "%srank %d sees %s after sc_shmem_allgather, contributions in rank order are %s" % (on, q, ag[:12], exp_ag[:12]))
+            viol("allgather", "%srank %d sees %s after sc_shmem_allgather%s, contributions in rank order are %s" % (
+                on, q, ag[:12], (" (send %d x %s, receive %d x %s)" % (count * ts // TSIZE[st], TNAME[st], count * ts // TSIZE[rt], TNAME[rt])) if sigtxt else "", exp_ag[:12]))
         if pre != exp_pre:
             rep["rank"], rep["got"], rep["expected"] = q, pre, exp_pre
             viol("prefix", "%srank %d sees %s after sc_shmem_prefix, expected (0, s0, s0+s1, ...) = %s" % (on, q, pre[:12], exp_pre[:12]))
@@ -380,7 +414,8 @@ def run(ctx):
         rp = json.load(open(ctx.replay)).get("replay", {})
         if "case" in rp:
             rc0 = tuple(rp["case"])
-            cases = [rc0 + (0,) * (12 - len(rc0))] + cases[:5]
+            rc0 = rc0 + (0,) * (12 - len(rc0))
+            cases = [rc0 + (-1,) * (14 - len(rc0))] + cases[:5]
     env = dict(os.environ, VERIF_SCRATCH=ctx.scratch, ASAN_OPTIONS="detect_leaks=0")
     text = "".join(" ".join(str(x) for x in c) + "\n" for c in cases)
     rc, lines, err = ctx.run_lines([exe], text, timeout=1500, env=env)
@@ -392,20 +427,28 @@ def run(ctx):
         ctx.violation("crash", "c14 harness ended with status %s while running %s: %s" % (rc, c, " | ".join(m)[:600] or err[-400:]),
                       dict(case=list(c) if c else None, stderr=err[-3000:]))
     bad = [0]
-    dist = {"communicator": {}, "P": {}, "ppn": {}, "flavour": {}, "dtype": {}, "count": {}, "adv": {}, "attach": {}, "rounds": {}, "nocheck_warnings": 0}
+    dist = {"communicator": {}, "P": {}, "ppn": {}, "flavour": {}, "dtype": {}, "count": {}, "adv": {}, "attach": {}, "rounds": {}, "allgather_signatures": {},
+            "allgather_signatures_differ_on_several_nodes_window": 0, "nocheck_warnings": 0}
     model_lines, model_cases = [], []
     for c, r in zip(cases, runs):
-        P, seed, adv, pa, ppn, nonc, flavour, d, count, dseed, sync, dup = c
+        P, seed, adv, pa, ppn, nonc, flavour, d, count, dseed, sync, dup, st, rt = c
+        st, rt = (d if st < 0 else st), (d if rt < 0 else rt)
+        if (st, rt) != (d, d) and 0 < ppn < P and pa >= 0 and flavour >= 2 and count > 0:
+            dist["allgather_signatures_differ_on_several_nodes_window"] += 1
         for k, x in (("communicator", "duplicate (MPI_Comm_dup after attach)" if dup else "original"), ("P", P), ("ppn", ppn), ("flavour", FNAME[flavour]), ("dtype", TNAME[d]), ("count", count), ("adv", adv),
                      ("attach", "explicit" if pa > 0 else ("none" if pa < 0 else ("split_type_roundrobin" if nonc else "split_type"))),
-                     ("rounds", "barrier before each write round" if sync else "back to back")):
+                     ("rounds", "barrier before each write round" if sync else "back to back"),
+                     ("allgather_signatures", "same type and count on both sides" if (st, rt) == (d, d) else "%s -> %s" % (TNAME[st], TNAME[rt]))):
             dist[k][x] = dist[k].get(x, 0) + 1
         ctx.count_case(c, nontrivial=P > 1)
         res = judge(ctx, c, r, bad, ntypes)
         if res:
             dist["nocheck_warnings"] += res["warnings"]
             contrib = [item(d, dseed, q, k) for q in range(P) for k in range(count)]
-            model_lines.append("%d %d %d %d %d %d %d %s %d" % (P, pa, ppn, nonc, flavour, d, count, hxl(contrib), dup))
+            L = count * TSIZE[d]
+            cbytes = b"".join((v & ((1 << (8 * TSIZE[d])) - 1)).to_bytes(TSIZE[d], "little") for v in contrib)
+            model_lines.append("%d %d %d %d %d %d %d %s %d %d %d %d %d %s" % (P, pa, ppn, nonc, flavour, d, count, hxl(contrib), dup,
+                                                                           L // TSIZE[st], TSIZE[st], L // TSIZE[rt], TSIZE[rt], hxl(list(cbytes))))
             model_cases.append((c, r, res))
     try:
         mexe = ctx.model("c14")
@@ -416,7 +459,7 @@ def run(ctx):
         nmis = 0
         ncalls = 0
         for (c, r, res), l in zip(model_cases, mout):
-            P, seed, adv, pa, ppn, nonc, flavour, d, count, dseed, sync, dup = c
+            P, seed, adv, pa, ppn, nonc, flavour, d, count, dseed, sync, dup, st, rt = c
             per = [x.strip() for x in l.split(" | ")]
             tr = rank_calls(r.trace, P, dup)
             for q in range(P):
@@ -430,6 +473,8 @@ def run(ctx):
                     dis.append("write_start model %s impl %s" % (m.get("w"), o["w"]))
                 if hxl(decode(d, hb(o["ag"]))) != m.get("ag"):
                     dis.append("allgather model %s impl %s" % (m.get("ag"), hxl(decode(d, hb(o["ag"])))))
+                if hxl(list(hb(o["ag"]))) != m.get("agb"):
+                    dis.append("allgather with send / receive signatures (bytes): model %s impl %s" % (m.get("agb"), hxl(list(hb(o["ag"])))))
                 if hxl(decode(d, hb(o["pre"]))) != m.get("pre"):
                     dis.append("prefix model %s impl %s" % (m.get("pre"), hxl(decode(d, hb(o["pre"])))))
                 life = "%s/%s/%s" % (tr[q].get("_life_attach", "?"), tr[q].get("_life_end", "?"), tr[q].get("_life_detach", "?"))
@@ -460,7 +505,8 @@ def run(ctx):
     ctx.cov["disagreements_checked"] = len(model_lines)
     ctx.cov["rule"] = ("runs of the real sc_shmem_* / node communicator code on the simulated MPI: P in %s, every node size dividing P, explicit "
                        "processes_per_node and MPI_Comm_split_type (contiguous nodes), all 4 flavours, 8 integer datatypes, counts 0..5, all 8 "
-                       "scheduler adversaries; plus: no communicators attached, unequal node sizes (must not attach), and the round-robin node "
+                       "scheduler adversaries; sc_shmem_allgather with send / receive signatures that describe the same bytes differently (INT <-> 2INT, "
+                       "LONG <-> INT, BYTE <-> typed, narrow <-> wide) at random in the main grid and on dedicated multi-node grids for all flavours; plus: no communicators attached, unequal node sizes (must not attach), and the round-robin node "
                        "partition as probe of the recorded finding F-C14a; write rounds back to back (no barrier of the callers between the last "
                        "read and the next write_start; every MPI_MODE_NOCHECK lock must find no conflicting lock); after detach: get_node_comms must return NULL/NULL, no communicator/window may be left; "
                        "distinct = distinct parameter tuples; non-trivial = P > 1" % (
@@ -469,7 +515,8 @@ def run(ctx):
     ctx.notes["nocheck_lock_warnings"] = ("simmpi recorded %d [WARNING] items (MPI_MODE_NOCHECK asserted while a conflicting lock is held: judged, kind `nocheck`; "
                                           "0 expected since the barrier in sc_shmem_write_start_window)" % dist["nocheck_warnings"])
     for c in cases[:: max(1, len(cases) // 4)][:4]:
-        ctx.sample(dict(P=c[0], seed=c[1], adversary=c[2], ppn_attach=c[3], ppn_sim=c[4], roundrobin=c[5], flavour=FNAME[c[6]], dtype=TNAME[c[7]], count=c[8]))
+        ctx.sample(dict(P=c[0], seed=c[1], adversary=c[2], ppn_attach=c[3], ppn_sim=c[4], roundrobin=c[5], flavour=FNAME[c[6]], dtype=TNAME[c[7]], count=c[8],
+                        allgather_send_type=TNAME[c[7] if c[12] < 0 else c[12]], allgather_recv_type=TNAME[c[7] if c[13] < 0 else c[13]]))
     ctx.cov["trusted_base"] = ["T1: colours / keys of the MPI_Comm_split calls, the write_start / write_end decisions and the ORDER of their unlock / barrier / lock calls, the slot arithmetic and wrapped sums of sc_scan_on_array and the byte / item counts of the prefix and allgather functions are proved EQUAL to Gen/ShmemC14.v, regenerated from the working tree on every run (tools/c2g + tools/c2g/slicelib.py + clang-14 JSON AST trusted; parsed with tools/simmpi/mpi.h in the configuration the check builds)",
                                "tools/simmpi (simulated MPI: collectives, Comm_split/Comm_split_type, shared windows in one address space, "
                                "window locks with MPI_MODE_NOCHECK never block) and its trace",
